@@ -279,6 +279,8 @@ void harness(void)
   void *fr = reproc_free(out);
   VP_ASSERT(C16, fr == NULL, "reproc_free does not return null");
   VP_ASSERT(C16, vp_live_allocs == 0, "string sink leaks or double frees");
+  VP_ASSERT(C05, vp_live_allocs == 0, "string sink: memory is not released exactly once (or becomes unreachable)");
+  VP_ASSERT(C05, r == 0 || out == before, "string sink: on failure the caller's pointer no longer refers to its block");
   VP_COVER(r == REPROC_ENOMEM && oldlen > 0, "allocation failure with previous content");
   VP_COVER(r == 0 && oldlen == VP_L && n == VP_L, "full previous content plus full chunk");
   VP_COVER(r == 0 && oldlen < 0 && n == 0, "empty chunk onto a null string");
